@@ -35,6 +35,7 @@ import (
 	"github.com/aergoio/aergo/v2/state"
 	"github.com/aergoio/aergo/v2/state/statedb"
 	"github.com/aergoio/aergo/v2/types"
+	"github.com/aergoio/aergo/v2/types/dbkey"
 	"github.com/aergoio/aergo/v2/types/message"
 	"github.com/btcsuite/btcd/btcec/v2"
 	"github.com/btcsuite/btcd/btcec/v2/ecdsa"
@@ -656,6 +657,10 @@ func (n *Node) Project(blocks []*types.Block) *Projection {
 	}
 	if p.Marker {
 		bad("reorg marker present at quiescence")
+	}
+	// the chain DB's own record of the best block (what a restarted node starts from) names the best block
+	if raw := n.CS.VerifChainStore().Get(dbkey.LatestBlock()); !bytes.Equal(raw, types.BlockNoToBytes(best.BlockNo())) {
+		bad("the stored latest-block key says height %x, the best block is %d", raw, best.BlockNo())
 	}
 	// best is the tip of a parent-linked path to genesis and the height index maps exactly that path
 	main := map[string]int{}
